@@ -32,6 +32,7 @@ const (
 )
 
 type ctxKey struct{}
+type dlKey struct{}
 
 // hostCfg scripts one registry.
 type hostCfg struct {
@@ -48,7 +49,7 @@ type Req struct {
 	Hints  []string `json:"hints"` // scope strings attached to the context
 	// Deadline: this request's context has a deadline, and a credential lookup made on its behalf waits for it and
 	// returns the context's error (a request that gives up while others wait for the token fetch it is running)
-	Deadline bool `json:"deadline,omitempty"`
+	Deadline int `json:"deadline,omitempty"` // 1: the credential lookup waits for the deadline; 2: the token request does
 }
 
 type Scenario struct {
@@ -57,7 +58,8 @@ type Scenario struct {
 	Hosts    map[string]hostCfg `json:"hosts"`
 	Phases   [][]Req            `json:"phases"`   // requests of one phase run concurrently
 	Coalesce bool               `json:"coalesce"` // schedule policy: registry sends before token-service sends
-	Change   map[string]hostCfg `json:"change"`   // scheme change applied before the last phase
+	Change   map[string]hostCfg `json:"change"`   // scheme change applied before the last phase (or before phase ChangeAt)
+	ChangeAt int                `json:"changeat,omitempty"` // 0: before the last phase; k > 0: before phase k (0-based)
 	Seed     int64              `json:"seed"`
 }
 
@@ -203,6 +205,12 @@ func (w *world) RoundTrip(req *http.Request) (*http.Response, error) {
 		"secrets": findSecrets(authz, req.URL.RawQuery, body), "tokhost": tokHost, "tokscopes": tokScopes, "service": service,
 		"asked": parseScopes(asked)})
 	w.s.Gate(kind, id)
+	if v, _ := req.Context().Value(dlKey{}).(int); v == 2 && isToken {
+		// the token service is slow: the request that runs the fetch gives up at its deadline
+		<-req.Context().Done()
+		w.tr.Emit(map[string]any{"e": "resp", "id": id, "dest": host, "kind": kind, "status": 0})
+		return nil, req.Context().Err()
+	}
 	w.mu.Lock()
 	defer w.mu.Unlock()
 	resp := func(code int, h http.Header, b string) (*http.Response, error) {
@@ -257,7 +265,7 @@ func runScenario(t *testing.T, sc *Scenario, tr *vh.Tracer) (hang bool) {
 		}
 		cl := &auth.Client{Client: &http.Client{Transport: w}}
 		cl.Credential = func(ctx context.Context, host string) (auth.Credential, error) {
-			if _, has := ctx.Deadline(); has {
+			if v, _ := ctx.Value(dlKey{}).(int); v == 1 {
 				<-ctx.Done()
 				return auth.EmptyCredential, ctx.Err()
 			}
@@ -280,7 +288,7 @@ func runScenario(t *testing.T, sc *Scenario, tr *vh.Tracer) (hang bool) {
 			"realms": [][]string{{hostA, sc.Hosts[hostA].Realm}, {hostB, sc.Hosts[hostB].Realm}}})
 		rng := rand.New(rand.NewSource(sc.Seed))
 		for pi, phase := range sc.Phases {
-			if pi == len(sc.Phases)-1 && len(sc.Change) > 0 {
+			if len(sc.Change) > 0 && ((sc.ChangeAt == 0 && pi == len(sc.Phases)-1) || (sc.ChangeAt > 0 && pi == sc.ChangeAt)) {
 				for h, c := range sc.Change {
 					w.hosts[h] = c
 				}
@@ -295,9 +303,9 @@ func runScenario(t *testing.T, sc *Scenario, tr *vh.Tracer) (hang bool) {
 				go func() {
 					defer wg.Done()
 					ctx := context.WithValue(context.Background(), ctxKey{}, r.ID)
-					if r.Deadline {
+					if r.Deadline != 0 {
 						var cancel context.CancelFunc
-						ctx, cancel = context.WithTimeout(ctx, time.Hour)
+						ctx, cancel = context.WithTimeout(context.WithValue(ctx, dlKey{}, r.Deadline), time.Hour)
 						defer cancel()
 					}
 					if len(r.Hints) > 0 {
@@ -310,7 +318,7 @@ func runScenario(t *testing.T, sc *Scenario, tr *vh.Tracer) (hang bool) {
 						st = resp.StatusCode
 						resp.Body.Close()
 					}
-					tr.Emit(map[string]any{"e": "ret", "id": r.ID, "status": st, "err": err != nil, "deadline": r.Deadline})
+					tr.Emit(map[string]any{"e": "ret", "id": r.ID, "status": st, "err": err != nil, "deadline": r.Deadline != 0})
 				}()
 			}
 			go func() { wg.Wait(); close(done) }()
@@ -379,7 +387,7 @@ func genScenario(rng *rand.Rand, id int) Scenario {
 			phase = append(phase, r)
 		}
 		if rng.Intn(3) == 0 {
-			phase[0].Deadline = true
+			phase[0].Deadline = 1 + rng.Intn(2)
 		}
 		sc.Phases = append(sc.Phases, phase, []Req{newReq(h)})
 		sc.Coalesce = true
@@ -390,9 +398,28 @@ func genScenario(rng *rand.Rand, id int) Scenario {
 		}
 		sc.Phases = append(sc.Phases, []Req{newReq(hosts[rng.Intn(2)])}, phase, []Req{newReq(hosts[rng.Intn(2)])})
 	}
+	if rng.Intn(8) == 0 {
+		// scripted: a registry is used under one scheme, switches to the other, and is used again - with and without
+		// scope hints (what was cached under the old scheme must not be sent under the new one)
+		h := hosts[rng.Intn(2)]
+		before, after := hostCfg{Scheme: "basic", Flow: "password", Realm: h}, hostCfg{Scheme: "bearer", Flow: []string{"password", "refresh"}[rng.Intn(2)], Realm: []string{h, hostT}[rng.Intn(2)]}
+		if rng.Intn(3) == 0 {
+			before, after = after, before
+		}
+		sc.Hosts[h] = before
+		plain := func() Req { r := newReq(h); r.Hints = nil; return r }
+		sc.Phases = [][]Req{{plain()}, {newReq(h)}, {plain()}, {plain()}, {newReq(h)}}
+		sc.Coalesce = false
+		sc.Change, sc.ChangeAt = map[string]hostCfg{h: after}, 1
+		return sc
+	}
 	if rng.Intn(4) == 0 {
 		h := hosts[rng.Intn(2)]
 		sc.Change = map[string]hostCfg{h: mk(h, hostA)}
+		if len(sc.Phases) >= 4 && rng.Intn(2) == 0 {
+			// the change comes early: several requests follow it (what was cached before must not be reused under the new scheme)
+			sc.ChangeAt = 1 + rng.Intn(len(sc.Phases)-2)
+		}
 	}
 	return sc
 }
